@@ -1042,7 +1042,7 @@ SUFFIX_ASSUME = [
     'recorded texts are <= 4096 bytes (<= 1500 in the quick tier; <= 700 for single runs, <= 600 for Segments): deep DivSufSort paths that need larger inputs with production thresholds are reached through the verif-tagged SortCfg hook only (informational DRIFT09 rules)',
 ]
 
-MIX_GENERAL = dict(walks=140, design=('GSAP.tla', 'GSAP_q.cfg', 'GSAP_pinned.cfg', 300), go=[('parser', 350), ('parser-runs', 49), ('parser-osap', 28), ('parser-cap', 28), ('parser-sa-ntl', 70)])
+MIX_GENERAL = dict(walks=140, design=('GSAP.tla', 'GSAP_q.cfg', 'GSAP_m.cfg', 300), go=[('parser', 350), ('parser-runs', 49), ('parser-osap', 28), ('parser-cap', 28), ('parser-sa-ntl', 70)])
 
 def fam_dbuf(rule):
     return dict(run=run_dbuf, trace_module='DecoderBuf_Trace', rule=rule, assumptions=DBUF_ASSUME)
@@ -1075,7 +1075,7 @@ PROPS = {
     'C14': fam_parser('same recordings as C01 (10-30% nil blocks in a third of the scripts); rules C14.n, C14.empty_iff, and C14.block_after_skip = the round-trip equation for every block parsed after a skipped one', MIX_GENERAL),
     'C15': fam_parser('same recordings as C01 incl. probes (ReadAt/ByteAt at Off-2..Off+1 and end-2..end+1), Reset with caller slices of capacity len, len+3, len+7, len+8, len+20; rules C15.* (write_n, write_full_iff, readfrom_*, shrink_delta, reset_err, readat_*, byteat, no_panic)', MIX_GENERAL),
     'C19': fam_parser('recordings: run generator (every byte class incl. 0x00, runs of 32..432 bytes crossing block and buffer boundaries, WindowSize 1/2) + the C01 generators; + collision generator (hash parsers with 0..3 hash bits, repeats of 9..40 bytes); rules C19.right_maximal, C19.left_maximal (BHP, BDHP), C19.run_literals', dict(walks=70, go=[('parser-runs', 210), ('parser', 175), ('parser-collide', 150)])),
-    'C12': fam_parser('recordings: GSAP only, histories without Parse(nil), blocks <= 64 bytes, buffers <= 130 bytes, half of them with BufferSize <= WindowSize, several fills / Shrinks / Resets; rules C12.match_longest (every emitted match equals the brute-force longest previous match in the buffered data, clipped at the block end) and C12.literal_justified', dict(walks=0, go=[('parser-gsap', 260), ('parser-sa-ntl', 60)]), design=('GSAP.tla', 'GSAP_pinned.cfg', 'GSAP_T.cfg', 1500)),
+    'C12': fam_parser('recordings: GSAP only, histories without Parse(nil), blocks <= 64 bytes, buffers <= 130 bytes, half of them with BufferSize <= WindowSize, several fills / Shrinks / Resets; rules C12.match_longest (every emitted match equals the brute-force longest previous match in the buffered data, clipped at the block end) and C12.literal_justified', dict(walks=0, go=[('parser-gsap', 260), ('parser-sa-ntl', 60)]), design=('GSAP.tla', 'GSAP_m.cfg', 'GSAP_T.cfg', 1500)),
     'C11': fam_parser('recordings: OSAP only, flags 0 mostly, blocks <= 64 bytes, buffers <= 130 bytes, several blocks per fill (edge reuse), blocks after Shrink; rule C11.cost_optimal: BlockCost = OptCost (forward DP over literal and nearest-source match edges written in TLA+)', dict(walks=0, go=[('parser-osap', 170), ('parser-sa-ntl', 30)]), design=('OSAP.tla', 'OSAP_q.cfg', 'OSAP_T.cfg', 1200)),
     'C06': fam_dec('histories = random walks of Decoder.tla (API calls x writer fault schedule) + seeded Go-side histories with sizes around BufferSize-WindowSize / BufferSize, B < 2W, fault schedules and the retry protocol; C06 = no livelock / timeout event (no envelope action exists for them); liveness of the retry loops is model-checked (Terminates) on the design; non-trivial = distinct script with several flushes in one call, data larger than the free space, a refused or rejected block, or a writer fault'),
     'C07': dict(run=run_multi, trace_module=None, parts=[
